@@ -326,6 +326,19 @@ func simSearch(t *testing.T, opts map[string]string) {
 	}
 	w := bufio.NewWriterSize(out, 1<<20)
 	defer w.Flush()
+	if p := os.Getenv("VSIM_OUT"); p != "" {
+		// library functions entered by the runs of this worker (merged by the driver into the evidence)
+		defer func() {
+			var hit []string
+			for i, h := range simrt.FnHit {
+				if h {
+					hit = append(hit, simrt.FnTable[i])
+				}
+			}
+			b, _ := json.Marshal(map[string]interface{}{"total": simrt.FnTable, "hit": hit})
+			_ = os.WriteFile(p+".fn", b, 0o644)
+		}()
+	}
 	enc := json.NewEncoder(w)
 	viol := 0
 	samples := 0
